@@ -75,4 +75,10 @@ ChainExact ==
     (status = "done" /\ IsChain /\ (\A d \in 1..N : Devs[d].dc /\ fwd[d] = fwd[1])) =>
         \A j \in 1..N : delay[j] = Arrival(tp, link, fwd, j) - Arrival(tp, link, fwd, 1)
 
+\* ... also with devices without DC in the chain: they are part of the cable between their neighbours
+FirstDc == IF \E d \in 1..N : Devs[d].dc THEN SetMin({d \in 1..N : Devs[d].dc}) ELSE 0
+ChainExactMixed ==
+    (status = "done" /\ IsChain /\ FirstDc # 0 /\ (\A d \in 1..N : fwd[d] = fwd[1])) =>
+        \A j \in {j \in 1..N : Devs[j].dc} : delay[j] = Arrival(tp, link, fwd, j) - Arrival(tp, link, fwd, FirstDc)
+
 =============================================================================
